@@ -90,6 +90,29 @@ theorem rerunIn_keeps (e : Nat) (w : Int) : ∀ (t : RState) (st : St), e ∈ ef
   | forK e' sel lists ks texts =>
     intro st h
     simp only [rerunIn]; split <;> exact h
+  | scope m sid isSig inner ih =>
+    intro st h
+    simp only [effsOf] at h
+    simp only [rerunIn, effsOf]
+    exact ih st h
+  | rows e' sel lists row ks items ih =>
+    intro st h
+    simp only [effsOf, List.mem_cons] at h
+    simp only [rerunIn]
+    split
+    · next he => simp [effsOf, he]
+    · next he =>
+      rcases h with h | h
+      · exact absurd h.symm he
+      · simp only [effsOf, List.mem_cons]; exact Or.inr (ih st h)
+  | rowCons k r rest ihr ihrest =>
+    intro st h
+    simp only [effsOf, List.mem_append] at h
+    simp only [rerunIn, effsOf, List.mem_append]
+    rcases h with h | h
+    · exact Or.inl (ihr st h)
+    · exact Or.inr (ihrest _ h)
+  | rowNil => intro st h; simp [effsOf] at h
 
 /-- effects other than the acting one keep their `EffOK` -/
 theorem Good.acts {K : Nat} {st : St} {v : View} {t : RState} (hg : Good K st v t) (hi : RInv K st) {e : Nat}
@@ -496,26 +519,33 @@ theorem dropAll_append (s : St) (a b : List (Nat × Option RState)) :
     dropAll s (a ++ b) = dropAll (dropAll s a) b := by
   simp [dropAll, List.foldl_append]
 
-theorem release_fold (mine : List (Nat × Option RState)) : ∀ (s : St),
+/-- the trees the zombies hold contain no component-local state (true of every state of a view of the
+theorems' class) -/
+def NoLoc (zs : List (Nat × Option RState)) : Prop := ∀ z ∈ zs, ∀ t, z.2 = some t → t.locals = []
+
+theorem release_fold (mine : List (Nat × Option RState)) : NoLoc mine → ∀ (s : St),
     mine.foldl (fun st z => match z.2 with | some t => dropState st t | none => st) s =
       dropAll s (mine.flatMap heldOf) := by
   induction mine with
-  | nil => intro s; simp [dropAll]
+  | nil => intro _ s; simp [dropAll]
   | cons z rest ih =>
-    intro s
+    intro hl s
     simp only [List.foldl_cons, List.flatMap_cons, dropAll_append]
-    rw [ih]
+    rw [ih (fun z' hz' => hl z' (List.mem_cons_of_mem _ hz'))]
     congr 1
     cases hz : z.2 with
     | none => simp [heldOf, hz, dropAll]
-    | some t => simp [heldOf, hz, dropState]
+    | some t => simp [heldOf, hz, dropState_eq (hl z (by simp) t hz)]
 
-theorem releaseZombie_eq (st : St) (e : Nat) :
+theorem releaseZombie_eq (st : St) (e : Nat) (hl : NoLoc st.zombies) :
     releaseZombie st e =
       dropAll { st with zombies := st.zombies.filter fun z => !(z.1 == e) }
         ((st.zombies.filter fun z => z.1 == e).flatMap heldOf) := by
   unfold releaseZombie
-  exact release_fold _ _
+  exact release_fold _ (fun z hz => hl z (List.mem_filter.1 hz).1) _
+
+theorem InvC.noLoc {K : Nat} {v : View} {st : St} (h : InvC K v st) : NoLoc st.zombies :=
+  fun z hz t ht => GoodP.locals_nil _ t (h.zok z hz t ht).good
 
 theorem zEffs_heldOf (l : List (Nat × Option RState)) :
     zEffs (l.flatMap heldOf) = l.flatMap fun z => optEffs z.2 := by
@@ -602,7 +632,7 @@ theorem InvC.dead {K : Nat} {v : View} {st : St} (h : InvC K v st) {e : Nat} (hk
     by_cases hie : i = e
     · subst hie; rw [g2e]
     · rw [g2 i hie]
-  rw [hpoll, releaseZombie_eq]
+  rw [hpoll, releaseZombie_eq { st with rs := rs2 } e h.noLoc]
   generalize hmine : (st.zombies.filter fun z => z.1 == e) = mine
   generalize hrest : (st.zombies.filter fun z => !(z.1 == e)) = rest
   have hmine_sub : ∀ z ∈ mine, z ∈ st.zombies ∧ z.1 = e := by
@@ -1059,7 +1089,8 @@ theorem flagsOnly_frame {st : St} {e : Nat} {rs'' : State} (ho : ∀ x, x ≠ e 
 
 theorem killed_dirty (n : Node) : (killed n).dirty = n.dirty := by unfold killed; split <;> rfl
 
-theorem dead_frame {st : St} {e : Nat} (hlt' : e < st.rs.nodes.length) (hdead : (st.rs.get e).alive = false) :
+theorem dead_frame {st : St} {e : Nat} (hlt' : e < st.rs.nodes.length) (hdead : (st.rs.get e).alive = false)
+    (hnl : NoLoc st.zombies) :
     Frame1 st e (pollTask st e) ∧ Clean1 st e (pollTask st e) := by
   generalize hrs2 : ((st.rs.upd e fun n => { n with woken := false }).upd e fun n => { n with done := true }) = rs2
   have hpoll : pollTask st e = releaseZombie { st with rs := rs2 } e := by
@@ -1073,7 +1104,7 @@ theorem dead_frame {st : St} {e : Nat} (hlt' : e < st.rs.nodes.length) (hdead : 
     rw [← hrs2, State.get_upd]; split
     · rw [State.get_upd]; split <;> exact ⟨rfl, rfl⟩
     · rw [State.get_upd]; split <;> exact ⟨rfl, rfl⟩
-  rw [hpoll, releaseZombie_eq]
+  rw [hpoll, releaseZombie_eq { st with rs := rs2 } e hnl]
   have d := dropAll_spec ((({ st with rs := rs2 } : St).zombies.filter fun z => z.1 == e).flatMap heldOf)
     ({ ({ st with rs := rs2 } : St) with
       zombies := ({ st with rs := rs2 } : St).zombies.filter fun z => !(z.1 == e) })
@@ -1175,7 +1206,7 @@ theorem poll_frame {K : Nat} {v : View} {st : St} (h : InvC K v st) (hw : v.wf K
         rw [State.get_upd_ne _ _ (Ne.symm hy), ← hsA]; exact hoA y hy
       · rw [effLoop_nochan _ _ _ (by rw [hAget]; simpa using hch)]
         exact hfrA
-  · exact dead_frame hlt' (by simpa using healive)
+  · exact dead_frame hlt' (by simpa using healive) h.noLoc
 
 theorem InvC.pollNth {K : Nat} {v : View} {st : St} (h : InvC K v st) (hw : v.wf K = true) (hc : v.core = true)
     (i : Nat) : InvC K v (RView.pollNth st i) := by
